@@ -618,9 +618,19 @@ class Driver:
                 got = b''
                 rounds = 0
                 stalled = r.randrange(3, 30)  # the consumer does not read at all for the first rounds: the pipe fills
+                acks_at = set(r.sample(range(2, stalled + 40), 3))  # commands acknowledged while events are queued, one half written
                 while (q or len(got) < len(expected)) and rounds < 20000:
                     rounds += 1
                     loop.run_until_complete(procs.flush_write_queue())
+                    if rounds in acks_at and q:
+                        # every record was queued before this answer: it comes out after them, as one whole line
+                        n0 = sum(map(len, q))
+                        procs.write(encname, 'done')
+                        added = sum(map(len, q)) - n0
+                        expected += b'done\n' if added == 5 else b''
+                        res.count('pipe-conservation:ack-queued-behind-events')
+                        if added != 5:
+                            res.count('pipe-conservation:ack-not-5-octets')
                     if rounds <= stalled:
                         continue
                     bite = r.choice([0, 1, 100, 4095, 4096, 4097, 65536, 1 << 20])
